@@ -188,6 +188,7 @@ func (m *MTProto) makeRequest(data tl.Object, expectedTypes ...reflect.Type) (an
 		return nil, errors.Wrap(err, "sending message")
 	}
 
+	verifYield("prerecv", 0)
 	response := <-resp
 
 	switch r := response.(type) {
@@ -220,6 +221,7 @@ func (m *MTProto) Disconnect() error {
 }
 
 func (m *MTProto) Reconnect() error {
+	verifYield("reconnect", 0)
 	err := m.Disconnect()
 	if err != nil {
 		return errors.Wrap(err, "disconnecting")
@@ -286,6 +288,7 @@ func (m *MTProto) readMsg() error {
 		return errors.New("must setup connection before reading messages")
 	}
 
+	verifYield("read", 0)
 	response, err := m.transport.ReadMsg()
 	if err != nil {
 		if e, ok := err.(transport.ErrCode); ok {
@@ -318,6 +321,7 @@ func (m *MTProto) readMsg() error {
 }
 
 func (m *MTProto) processResponse(msg messages.Common) error {
+	verifYield("dispatch", int64(msg.GetMsgID()))
 	var data tl.Object
 	var err error
 	if et, ok := m.expectedTypes.Get(msg.GetMsgID()); ok && len(et) > 0 {
@@ -347,6 +351,7 @@ messageTypeSwitching:
 		m.mutex.Lock()
 		for _, k := range m.responseChannels.Keys() {
 			v, _ := m.responseChannels.Get(k)
+			verifYield("notify", int64(k))
 			v <- &errorSessionConfigsChanged{}
 		}
 		m.mutex.Unlock()
